@@ -81,7 +81,8 @@ def _glexindex(start, stop, cross_truncation=1.0):
     bound = stop.max()
     dimensions = len(start)
     start = numpy.clip(start, a_min=0, a_max=None)
-    dtype = numpy.uint8 if bound < 256 else numpy.uint16
+    # smallest unsigned type that holds 0..bound (uint16 wrapped silently above 65536)
+    dtype = numpy.min_scalar_type(max(int(bound), 0))
     range_ = numpy.arange(bound, dtype=dtype)
     indices = range_[:, numpy.newaxis]
 
